@@ -222,6 +222,45 @@ impl Engine for CodecEngine {
             let w: Vec<&str> = text.split_whitespace().collect();
             let Some(msg) = text_to_msg(&w) else { continue };
             let tree = bep_tree(&msg);
+            // other spellings of the `want` list (order, repeats, case, blanks, unknown entries): the decoder
+            // must read the same set of families (coverage: message.rs want visitor, (V6, "n4") arm)
+            if (w[1] == "find_node" || w[1] == "get_peers") && rng.chance(1, 3) {
+                let fam = *rng.pick(&["none", "n4", "n6", "both"]);
+                let sp: &[&[&str]] = match fam {
+                    "none" => &[&[], &["xx"], &["", "n5"]],
+                    "n4" => &[&["n4"], &["N4"], &["n4", "n4"], &[" n4 "], &["n4", "zz"], &["zz", "n4", "n4"]],
+                    "n6" => &[&["n6"], &["N6"], &["n6", "n6"], &["n6 "], &["q", "n6"], &["n6", "n6", "n6"]],
+                    _ => &[&["n6", "n4"], &["n4", "n6"], &["n6", "n6", "n4"], &["N6", "n4", "n4"], &["n4", "x", "n6"], &["n6", "n4", "n6"]],
+                };
+                let spelled: Vec<BVal> = rng.pick(sp).iter().map(|x| BVal::s(x)).collect();
+                let mut t2 = tree.clone();
+                if let BVal::Dict(top) = &mut t2 {
+                    for (k2, v2) in top.iter_mut() {
+                        if let (BVal::Bytes(kb), BVal::Dict(args)) = (&*k2, &mut *v2) {
+                            if kb == b"a" {
+                                args.retain(|(ak, _)| !matches!(ak, BVal::Bytes(b) if b == b"want"));
+                                args.push((BVal::s("want"), BVal::List(spelled.clone())));
+                            }
+                        }
+                    }
+                }
+                let exp: Vec<String> = w.iter().map(|x| if x.starts_with("want=") { format!("want={fam}") } else { x.to_string() }).collect();
+                ops.push(format!("dec {} | expect ok {}", hex(&t2.to_bytes()), exp.join(" ")));
+                continue;
+            }
+            // a node of the wrong address family in `nodes` / `nodes6`: the encoder must refuse
+            if w[0] == "r" && rng.chance(1, 12) {
+                let bad4 = format!("{}@{}", hex(&gen_id(rng)), gen_addr(rng, true));
+                let bad6 = format!("{}@{}", hex(&gen_id(rng)), gen_addr(rng, false));
+                let which = rng.chance(1, 2);
+                let exp: Vec<String> = w.iter().map(|x| {
+                    if which && x.starts_with("nodes=") { if *x == "nodes=-" { format!("nodes={bad4}") } else { format!("{x};{bad4}") } }
+                    else if !which && x.starts_with("nodes6=") { if *x == "nodes6=-" { format!("nodes6={bad6}") } else { format!("{x};{bad6}") } }
+                    else { x.to_string() }
+                }).collect();
+                ops.push(format!("enc {}", exp.join(" ")));
+                continue;
+            }
             match (idx + k) % 6 {
                 0 => ops.push(format!("enc {text}")),
                 1 => ops.push(format!("dec {} | expect ok {text}", hex(&tree.to_bytes()))),
